@@ -156,6 +156,8 @@ def eval_single(service, sshape, dshape=None, special=None, msg_id=7, cx_id=1):
             want = EXPECTED_EXC[fam]
         elif special in ("arity1", "arity3", "scalar") and not single:
             want = EXPECTED_EXC[fam]  # a malformed handler result is a handler failure
+        elif dshape == "notads" and sshape in ("ok", "warn", "ds_ok") and service != "n-delete":
+            want = 0x0110  # a response dataset that cannot be encoded is a processing failure
         elif sshape in ("ok", "warn", "fail", "unknown"):
             want = status_value(sshape)
         elif sshape in ("ds_ok", "ds_fail_extra"):
